@@ -194,6 +194,11 @@ class Interp:
             return fn
         if isinstance(fn, FuncModel):
             qn = fn.qualname
+            w = getattr(fn, "wrapped", None)
+            if w is not None and isinstance(w, FuncModel) and w.qualname in self.contracts and w.qualname not in self.inline_only:
+                # a decorated method (functools.wraps): the contract of the method covers the decorator wrapper as well
+                self.call_log.append(w.qualname)
+                return self.contracts[w.qualname](self, fn, list(args), dict(kwargs))
             if qn in self.contracts and qn not in self.inline_only:
                 self.call_log.append(qn)
                 return self.contracts[qn](self, fn, list(args), dict(kwargs))
@@ -285,6 +290,11 @@ class Interp:
     # ------------------------------------------------------------------ attributes
     def getattr(self, obj, name):
         from . import npmodel
+        h = getattr(obj, "py_getattr", None)
+        if h is not None:
+            r = h(self, name)
+            if r is not npmodel.NOATTR:
+                return r
         if isinstance(obj, VObj):
             cattr, owner = obj.cls.lookup(name)
             if isinstance(cattr, VProperty):
@@ -364,6 +374,9 @@ class Interp:
 
     def setattr(self, obj, name, value):
         from . import npmodel
+        h = getattr(obj, "py_setattr", None)
+        if h is not None and h(self, name, value):
+            return
         if isinstance(obj, VObj):
             cattr, owner = obj.cls.lookup(name)
             if isinstance(cattr, VProperty):
